@@ -815,6 +815,17 @@ func driveC17(c *h.Ctx) error {
 	// does not have (a named bit 31, a full 32-flag mask, named values 0, 2^31 and 2^32-1, lower-case
 	// and underscore names): the theorems are generic in the registry, so is the correspondence
 	tsnap := c17registerTestEntries()
+	// what was registered (in two calls) is what the registry holds, in both directions: the expectation
+	// is the map handed to the Register function, not the registry's own dump
+	for v, n := range c17testEnum {
+		got := ttlv.EnumName(int(c17tE), uint32(v))
+		back, err := ttlv.EnumByName(int(c17tE), n)
+		c.Eval(fmt.Sprintf("t_registered/%d", uint32(v)), true)
+		if got != n || err != nil || back != uint32(v) {
+			c.Fail("C17/registered-entry-lost", fmt.Sprintf("after registering %d -> %q (enumeration registered in two calls): name of the value is %q, value of the name is %d (%v)", uint32(v), n, got, back, err),
+				map[string]any{"kind": "test-registry", "tag": int64(c17tE), "num": int64(v), "name": n})
+		}
+	}
 	dt := &c17run{c: c, live: tsnap, oracle: true, pfx: "t_"}
 	dt.testRegistryCases()
 	return d.writeCases(dt, tsnap)
